@@ -152,6 +152,15 @@ def worker(cfg, tier='quick'):
                    wit(m_succ) if m_succ is not None else None, det + ' [direct encoding]')
     else:
         change_of_variables(col, code, cfg, Hr, LX, LZ, n, det)
+    # the verdict functions read H and the logicals of the object: an object that was USED (k, d, logicals,
+    # H read) before deform() must carry the same matrices as the freshly deformed one decided above
+    if code.is_deformed:
+        from checks.c01 import used_then_deformed_differs
+        diff_u = used_then_deformed_differs(cfg, Hr, LX, LZ)
+        col.record('C04/object-used-before-deform-decides-with-the-same-matrices', 'sat' if diff_u else 'unsat', 0, False,
+                   dict(used_then_deformed=diff_u, error=[0] * (2 * n)) if diff_u else None,
+                   'ground: H, logicals_x, logicals_z, n, k, d, is_css of (construct; read k, d, H, Hx, logicals; deform) '
+                   'equal those of (construct; deform)')
     # reachability twins
     col.reach('C04/reach/success', [mismatch(lambda v: z3.BoolVal(bool(v['succ']) is True))])
     col.reach('C04/reach/failure-in-codespace',
@@ -257,6 +266,9 @@ def replay(path):
             bad = bool(code.is_success(e)) != gf2.in_rowspace(Hr, ev, 2 * n)
         elif 'is_logical_error' in oid:
             bad = bool(code.is_logical_error(e)) != any(leff)
+        elif 'used-before-deform' in oid:
+            from checks.c01 import used_then_deformed_differs
+            bad = bool(used_then_deformed_differs(d['config'], Hr, LX, LZ))
         elif 'single-row' in oid:
             got = np.asarray(code.logical_errors(e.reshape(1, -1)))
             print('logical_errors of the (1, 2n) form', got.tolist(), 'flat form spec', leff)
